@@ -206,9 +206,14 @@ class GroupByApplyConcatApply(ApplyConcatApply, GroupByBase):
     def _chunk_cls_args(self):
         return self.by
 
+    # The shuffle-based reduction (split_out > 1) needs chunk results that are
+    # frames indexed by exactly the group keys, and an aggregate step that
+    # copes with the empty partitions it produces (its meta included)
+    _supports_split_out = True
+
     @property
     def split_out(self):
-        if self.operand("split_out") is None:
+        if self.operand("split_out") is None or not self._supports_split_out:
             return 1
         return super().split_out
 
@@ -217,6 +222,8 @@ class GroupByApplyConcatApply(ApplyConcatApply, GroupByBase):
         return self.frame.columns
 
     def _tune_down(self):
+        if not self._supports_split_out:
+            return
         if len(self.by) > 1 and self.operand("split_out") is None:
             return self.substitute_parameters(
                 {
@@ -615,11 +622,18 @@ class IdxMax(IdxMin):
 class ValueCounts(SingleAggregation):
     groupby_chunk = staticmethod(_value_counts)
     groupby_aggregate = staticmethod(_value_counts_aggregate)
+    # The counted values are an additional index level
+    _supports_split_out = False
 
 
 class Unique(SingleAggregation):
     groupby_chunk = M.unique
     groupby_aggregate = staticmethod(_unique_aggregate)
+
+    @property
+    def _supports_split_out(self):
+        # _unique_aggregate can't label an empty result with several keys
+        return len(self.by) == 1
 
     @functools.cached_property
     def aggregate_kwargs(self) -> dict:
@@ -635,6 +649,8 @@ class Unique(SingleAggregation):
 class Cov(SingleAggregation):
     chunk = staticmethod(_cov_chunk)
     std = False
+    # The chunk results are tuples of frames
+    _supports_split_out = False
 
     def _simplify_up(self, parent, dependents):
         # Every column contributes a row per group to each output column, so
@@ -873,6 +889,8 @@ class NUnique(SingleAggregation):
 class Head(SingleAggregation):
     groupby_chunk = staticmethod(_head_chunk)
     groupby_aggregate = staticmethod(_head_aggregate)
+    # The chunk results keep the index of the input and depend on its order
+    _supports_split_out = False
 
     @classmethod
     def combine(cls, inputs, **kwargs):
